@@ -380,6 +380,26 @@ pub fn generate(rng: &mut Rng, p: &Pools, mode: &str) -> Workload {
             }
         }
     }
+    // the same request from every thread at once, each followed at once by a different cheap one (request
+    // coalescing, single-flight caches: the waiter must get the answer to its own question): one workload in twenty
+    if !c10 && rng.chance(1, 20) {
+        let e = rng.pick(&p.exprs).clone();
+        let k = rng.below(3);
+        let t = *rng.pick(&p.instants);
+        let cheap = ["24/7", "Mo-Fr 09:00-17:00", "off", "Sa,Su 10:00-12:00", "Mo 10:00-12:00; Tu off", "sunrise-sunset"];
+        let mk = |e: String| match k {
+            0 => Op::Normalize(e),
+            1 => Op::Parse(e),
+            _ => Op::StateNext { e, c: Ctx::Default, t },
+        };
+        for (i, th) in threads.iter_mut().enumerate() {
+            let pos = rng.usize_below(th.len().min(1) + 1);
+            for r in 0..rng.range(1, 3) as usize {
+                th.insert(pos + 2 * r, mk(e.clone()));
+                th.insert(pos + 2 * r + 1, mk(cheap[(i + r) % cheap.len()].to_string()));
+            }
+        }
+    }
     // parse storms: one workload in twenty-five has every thread parse (and ask one question of) expressions of
     // very different lengths, the shortest next to the longest: whatever the parser keeps between or across calls --
     // in the library or in the parser generator's own process-wide settings -- is then shared by unequal callers
